@@ -4,26 +4,26 @@ import VelaVerif.Lemmas.Receptive
 namespace VelaVerif.Box
 open VelaVerif.Receptive
 
-/-- Height axis without upscaling, read offset absent: closed form of what `transformH` returns,
-    in terms of the products `Y0 = (y0-w0)*s`, `Y1 = (y1-w0)*s`. -/
-theorem transformH_up1 (y0 y1 w0 s skT skB H kd : Int)
-    (hs : 1 ≤ s) (h0 : 0 ≤ y0 - w0) (h01 : y0 < y1) (h1 : y1 - w0 ≤ H)
-    (hT : 0 ≤ skT) (hsk : kd - s ≤ skT + skB) :
-    let r := transformH y0 y1 w0 none (some (s, skT, skB)) H 1 kd
+/-- Height axis without upscaling: closed form of what `transformH` returns, in terms of the products
+    `Y0 = (y0-w0)*s`, `Y1 = (y1-w0)*s`; `H` = rows the operator can read, `off` = read offset.
+    The OFM stripe may end below the IFM (`y1 - w0 > H`). -/
+theorem transformH_up1 (y0 y1 w0 s skT skB H kd : Int) (off : Option Int)
+    (hs : 1 ≤ s) (h01 : y0 < y1) (hsk : kd - s ≤ skT + skB) :
+    let r := transformH y0 y1 w0 off (some (s, skT, skB)) H 1 kd
     let e := (y1 - w0) * s - s - skT + kd
-    r.a = max ((y0 - w0) * s - skT) 0 ∧ r.pt = max (skT - (y0 - w0) * s) 0 ∧
-    r.pb = max (e - H) 0 ∧ r.b = max (min ((y1 - w0) * s + skB) H) 1 ∧ e ≤ (y1 - w0) * s + skB := by
+    r.a = max ((y0 - w0) * s - skT) 0 + offOf off ∧ r.pt = max (skT - (y0 - w0) * s) 0 ∧
+    r.pb = max (e - H) 0 ∧ r.b = max (min (min (y1 - w0) H * s + skB) H) 1 + offOf off ∧ e ≤ (y1 - w0) * s + skB := by
   intro r e
-  have hmin : min (y1 - w0) H = y1 - w0 := by omega
   have htot : s * (y1 - w0 - (y0 - w0) - 1) = (y1 - w0) * s - (y0 - w0) * s - s := by ring
   have hge : (y0 - w0) * s + s ≤ (y1 - w0) * s := by
     have : (y0 - w0 + 1) * s ≤ (y1 - w0) * s := Int.mul_le_mul_of_nonneg_right (by omega) (by omega)
     have e2 : (y0 - w0 + 1) * s = (y0 - w0) * s + s := by ring
     omega
-  simp only [r, e, transformH, Int.emod_one, Int.ediv_one, Int.add_zero, Int.mul_one]
-  simp only [hmin, htot]
+  simp only [r, e, transformH, Int.emod_one, Int.ediv_one, Int.add_zero, Int.mul_one, if_true]
+  simp only [htot]
   generalize (y0 - w0) * s = Y0 at *
   generalize (y1 - w0) * s = Y1 at *
+  generalize min (y1 - w0) H * s = M at *
   refine ⟨by omega, by omega, ?_, trivial, by omega⟩
   split <;> omega
 
